@@ -1,6 +1,7 @@
 (* Properties/C11.v -- server-sent events.  Only property-level statements.
 
-   KNOWN FINDING D9: every event block on the wire lacks the terminating blank line (the bytes are
+   KNOWN FINDINGS D9 and D17 (D17: see C11.11 at the end).
+   D9: every event block on the wire lacks the terminating blank line (the bytes are
    pinned by /repo/tests/event.rs), so an EventSource-conformant parser never dispatches.  Following
    DESIGN 2.3 the full property is stated (c11_strict_modulo_known_class), proved for every stream
    outside the class [kf_c11_missing_blank_line], the class is proved to be hit
@@ -150,15 +151,46 @@ Theorem c11_trailing_newline_lost_refuted :
   sse_parse (encode_gen true (Message [97; 10]) ++ [10]) = [([], [97; 10])].
 Proof. exact trailing_newline_lost_refuted_l. Qed.
 
-(* C11.11  open candidate (what the code does): an event whose encoding exceeds the read buffer
-   makes write_to fail (WriteZero); the stream ends without terminating chunk, the event and
-   everything behind it are never delivered although accepted, and the senders learn of it only
-   at their next send. *)
+(* C11.11  KNOWN FINDING D17 (class [kf_c11_oversize_event cap]: the history sends an event whose
+   encoding exceeds the [cap] = 65528-byte read buffer).  What the code does: write_to fails
+   (WriteZero); the stream ends without terminating chunk, the event and everything behind it are
+   never delivered although accepted, and the senders learn of it only at their next send. *)
 Theorem c11_oversize_event_aborts_stream :
   forall fixed cap s e q, wst s = WActive -> queue s = e :: q -> (cap < length (encode_gen fixed e))%nat ->
     exists s', cstep fixed cap s WriterPoll = Some s' /\ wst s' = WReaderErr /\ wire s' = wire s /\
                recv_alive s' = false /\ accepted s' = accepted s.
 Proof. exact oversize_event_aborts_stream_l. Qed.
+
+(* the lossless clauses hold for every history OUTSIDE the class: write_to never fails, every
+   queued event fits, and once all senders are gone (client present) the writer delivers the
+   whole queue and terminates the stream with every accepted event on the wire ... *)
+Theorem c11_lossless_modulo_oversize :
+  forall cap tr s, crun true cap cinit tr = Some s -> kf_c11_oversize_event cap tr = false ->
+    wst s <> WReaderErr /\
+    Forall (fun e => (length (encode_event e) <= cap)%nat) (queue s) /\
+    (wst s = WActive -> live_senders s = O -> client_gone s = false ->
+     exists s', crun true cap s (repeat WriterPoll (S (length (queue s)))) = Some s' /\ wst s' = WTerminated /\
+                wire s' = map encode_event (accepted s')).
+Proof. exact lossless_modulo_oversize_l. Qed.
+
+(* ... and the oracle WITH its lossless clauses switched on (off only after a client loss) holds of
+   the model for every history outside the class ... *)
+Theorem c11_oracle_sound_modulo_oversize :
+  forall cap tr s, N.of_nat cap < 65536 -> crun true cap cinit tr = Some s ->
+    kf_c11_oversize_event cap tr = false -> Forall (fun e => ev_wf e = true) (accepted s) ->
+    oracle_c11_modulo (accepted s) (wire_bytes s) (is_term s) (Nat.eqb (live_senders s) 0) (lossless_no_oversize s)
+                      (drained_of s) [(is_term s, negb (Nat.eqb (live_senders s) 0))] = VOk.
+Proof. exact oracle_c11_sound_modulo_oversize_l. Qed.
+
+(* ... while inside the class they fail: D17 (buffer of 8 bytes, "data: aaaa\n" needs 11). *)
+Theorem c11_oversize_event_lost_refuted :
+  kf_c11_oversize_event 8 d17_trace = true /\
+  exists s, crun true 8 cinit d17_trace = Some s /\
+            wst s = WReaderErr /\ wire s = [] /\ wire_bytes s = [] /\ length (accepted s) = 2%nat /\
+            live_senders s = O /\
+            oracle_c11_modulo (accepted s) (wire_bytes s) (is_term s) true true true [] = VTerminator /\
+            oracle_c11_modulo (accepted s) (wire_bytes s) (is_term s) true false true [] = VOk.
+Proof. exact oversize_event_lost_refuted_l. Qed.
 
 Example c11_nonvacuous :
   exists s, crun true 100 cinit [Send 0 ev_x; Clone 0; WriterPoll; Send 1 (Custom [116] [97; 13; 10; 98]);
@@ -192,3 +224,6 @@ Print Assumptions c11_empty_message_terminates_refuted.
 Print Assumptions c11_cr_injects_field_refuted.
 Print Assumptions c11_trailing_newline_lost_refuted.
 Print Assumptions c11_oversize_event_aborts_stream.
+Print Assumptions c11_lossless_modulo_oversize.
+Print Assumptions c11_oracle_sound_modulo_oversize.
+Print Assumptions c11_oversize_event_lost_refuted.
